@@ -301,11 +301,33 @@ func runC13(rt *rapid.T, c c13case, st *stats.Collector) {
 	}
 	// Follow-up query: encoded with the fields of N, reply encoded at N decodes.
 	prog := ref.Progress{Rows: 7, Bytes: 8, TotalRows: 9, WroteRows: 10, WroteBytes: 11, ElapsedNs: 12}
+	vcol := func(vals ...byte) *ref.Block {
+		c := ref.Column{Name: "v", T: ref.Fixed("UInt8", 1)}
+		for _, x := range vals {
+			c.Rows = append(c.Rows, []byte{x})
+		}
+		return &ref.Block{Info: ref.BlockInfo{BucketNum: -1}, Columns: []ref.Column{c}}
+	}
 	e.srv.Steps = append(e.srv.Steps,
 		itemStep(Item{Kind: "progress", Progress: prog}, simnet.AfterQuery(1), 0, nil),
+		itemStep(Item{Kind: "data", Block: vcol()}, nil, c.comp.Method, nil),
+		itemStep(Item{Kind: "data", Block: vcol(1, 2)}, nil, c.comp.Method, nil),
+		itemStep(Item{Kind: "data", Block: vcol(3)}, nil, c.comp.Method, nil),
 		itemStep(Item{Kind: "eos"}, nil, 0, nil))
 	var got []proto.Progress
-	q := ch.Query{Body: "SELECT 1", QueryID: "q-1", OnProgress: func(ctx context.Context, p proto.Progress) error { got = append(got, p); return nil }}
+	// result blocks (header, then two with rows) are decoded with the fields of N too, through
+	// inferred targets that are reused from the second block on
+	var auto proto.Results
+	var seen []string
+	q := ch.Query{Body: "SELECT 1", QueryID: "q-1", OnProgress: func(ctx context.Context, p proto.Progress) error { got = append(got, p); return nil },
+		Result: auto.Auto(), OnResult: func(ctx context.Context, b proto.Block) error {
+			if len(auto) == 1 {
+				if cv, ok := auto[0].Data.(*proto.ColUInt8); ok {
+					seen = append(seen, fmt.Sprint([]uint8(*cv)))
+				}
+			}
+			return nil
+		}}
 	if err := doBounded(rt, e, client, context.Background(), q, time.Minute, fmt.Sprintf("follow-up query at negotiated revision %d (client %d, server %d)", N, c.clientRev, c.serverRev)); err != nil {
 		rt.Fatalf("follow-up query at negotiated revision %d: %v", N, err)
 	}
@@ -315,6 +337,9 @@ func runC13(rt *rapid.T, c c13case, st *stats.Collector) {
 	}
 	if len(got) != 1 || got[0] != wantP {
 		rt.Fatalf("progress decoded at negotiated revision %d: %+v want %+v", N, got, wantP)
+	}
+	if strings.Join(seen, ";") != "[];[1 2];[3]" {
+		rt.Fatalf("result blocks decoded at negotiated revision %d (client %d, server %d): %v, want [] then [1 2] then [3]", N, c.clientRev, c.serverRev, seen)
 	}
 	e.srv.WithStream(func(cs *ref.ClientStream) {
 		if cs.Err != nil || cs.Pending() != 0 {
